@@ -377,11 +377,21 @@ impl<'a> RawFile<'a> {
             }
         }
         let s: SubFileSizes = {
-            let sb: [u8; 24] = b
-                .get(0..24)
-                .expect("3 < lf <= b.len()")
-                .try_into()
-                .expect("slice has 24 elements so fits in 24 length const array");
+            let sb: [u8; 24] = match b.get(0..24) {
+                Some(sb) => sb,
+                // lf is 4 or 5: the file is shorter than the 24 bytes of sub-file sizes.
+                None => {
+                    return (
+                        Err(DeserializationError::InternalFileLengthIsTooSmall(
+                            lf,
+                            b.len(),
+                        )),
+                        vec![],
+                    )
+                }
+            }
+            .try_into()
+            .expect("slice has 24 elements so fits in 24 length const array");
             sb.into()
         };
 
